@@ -587,7 +587,7 @@ class Walker:
                 r.extra['side'] = {'pos': 'neg', 'neg': 'pos'}.get(x.extra.get('side'), x.extra.get('side'))
                 return r
             return D(TOP, None, getattr(x, 'length', None))
-        if name == 'concatenate':
+        if name in ('concatenate', 'hstack'):
             parts = args[0][1] if isinstance(args[0], tuple) and args[0][0] == 'tuple' else None
             if parts is None:
                 raise AnalysisError('window analysis: concatenate argument')
